@@ -1062,10 +1062,13 @@ export class ProcGenWrapper {
       const tmplArgs = getTmplArgs(elem)
       if (!tmplArgs.dynEvListeners) tmplArgs.dynEvListeners = {}
       const dynEvListeners = tmplArgs.dynEvListeners
-      if (dynEvListeners[evName]) {
-        elem.removeListener(evName, dynEvListeners[evName]!, evOptions)
+      // bindings on the same event that differ in their flags (e.g. `capture-bind:tap` and
+      // `mut-bind:tap`) are different listeners and must not share a slot
+      const key = `${evName}:${final ? 1 : 0}${mutated ? 1 : 0}${capture ? 1 : 0}`
+      if (dynEvListeners[key]) {
+        elem.removeListener(evName, dynEvListeners[key]!, evOptions)
       }
-      dynEvListeners[evName] = listener
+      dynEvListeners[key] = listener
     }
     if (handler) elem.addListener(evName, listener, evOptions)
   }
